@@ -200,8 +200,8 @@ def main() -> None:
                               "Python differential correspondence harness driving the real code through its public API (harness/)",
         }],
         "checks": checks,
-        "notes": "Properties move from not_applicable into checks as their model, theorems and correspondence are built. "
-                 "12 genuine defects were repaired by fix: commits in /repo (see known_findings.json, DESIGN.md §9).",
+        "notes": ""
+                 "63 genuine defects were repaired by fix: commits in /repo and 17 are recorded as known findings (see known_findings.json, DESIGN.md §12.3).",
         "not_applicable": na,
     }
     (ROOT / "MANIFEST.json").write_text(json.dumps(m, indent=1) + "\n")
